@@ -79,7 +79,7 @@ EXTRA = {
  "C07": " A fifth of the object cases rename one instance name to a name the schema does not know (empty, blank, separators).",
  "C01": " Every comparison also validates the json.Number form of the instance in another lexical spelling; foreign-draft dependency keywords as unknown keywords.",
  "C02": " Shadowed fragment ids beside $ref, tuple + additionalItems beside an items branch, a caching Loader used by roots of the other draft first. nestedDependencies: draft-07 dependencies at two levels (array and schema form) over disjoint or equal name sets.",
- "C03": " Base URIs with (also empty) queries, near-variant id decoys, alias leaves ($ref + one sibling) as reference targets, a lexical $dynamicRef beside $ref. 2020-12 anchor names with a leading underscore, dots and underscores.",
+ "C03": " Base URIs with (also empty) queries, near-variant id decoys, Loader documents whose retrieval URIs differ only in the letter case of the path, alias leaves ($ref + one sibling) as reference targets, a lexical $dynamicRef beside $ref. 2020-12 anchor names with a leading underscore, dots and underscores.",
  "C10": " Mixed-draft pairs (root of one draft, Loader document declaring the other, nodes with keywords of both), a Loader answering (nil, nil), nil map instances, pointer references with indices around 2^31/2^63/2^64. Go-built Schema values carry non-finite and extreme float64 keyword values and are validated against whenever Resolve accepts them (also when Marshal refuses them); ForType on the nil reflect.Type; deep applicator nests as documents. A *Schema inside examples/enum/const of a Go-built Schema with a pointer reference to it.",
  "C04": " Corpus and reflect-built types include embedded fields encoding/json does not flatten (name tags, '-', non-struct types, pointers to unexported structs), untranslatable kinds with marshalers and TypeSchemas entries, one field name promoted three times, pointer-then-value repeats. json.Number and *json.Number are leaf types of the random type generator (values in several spellings).",
  "C05": " Boolean documents are also decoded into re-used targets; bytes returned by direct Schema.MarshalJSON calls are held and re-compared after later calls.",
